@@ -89,7 +89,8 @@ def judge(bt, im, mo):
     if veq(b, t) and im["layer"] != [None]:
         return "base equals target but the emitted layer is not empty: %s" % hist.short(im["layer"])
     if not veq(im["layer"][0], mo):
-        return "bkld's layer differs from the model's diff_doc: %s vs %s" % (hist.short(im["layer"][0]), hist.short(mo))
+        # the round trip holds on this input, but the code no longer matches the model the theorem is about
+        return "MODEL-ONLY: bkld's layer differs from the model's diff_doc (the round trip still holds on this input): %s vs %s" % (hist.short(im["layer"][0]), hist.short(mo))
     return None
 
 
@@ -164,8 +165,11 @@ def run(ctx):
         if why and len(ctx.violations) < 5:
             sb, st = shrink(ctx, c, rng)
             sim, smo = run_batch(ctx, [(sb, st)], rng)
-            ctx.violations.append({"name": "case-" + core.vhash([sb, st]), "property": "C15", "kind": "failing-input",
-                                   "why": judge((sb, st), sim[0], smo[0]) or why, "base": core.to_jsonable(sb), "target": core.to_jsonable(st),
+            why2 = judge((sb, st), sim[0], smo[0]) or why
+            ctx.violations.append({"name": "case-" + core.vhash([sb, st]), "property": "C15",
+                                   "kind": "no-failing-input-found" if why2.startswith("MODEL-ONLY") else "failing-input",
+                                   "theorem": "C15_roundtrip (Properties/C15.v) is about Model.Tools.diff; correspondence bkld vs diff_doc broke",
+                                   "why": why2, "base": core.to_jsonable(sb), "target": core.to_jsonable(st),
                                    "implementation": {k: core.to_jsonable(v) for k, v in sim[0].items()}, "model": core.to_jsonable(smo[0]),
                                    "class": "c15-disagreement"})
     return {"evaluations": len(cases), "distinct_nontrivial": nt, "rule": RULE,
